@@ -14,7 +14,11 @@ PROP = {
             "typed maps when the elements fit; yaml.MapSlice for a lookup/size-only map; every signed and unsigned width that "
             "holds an integer and float32 for exactly representable floats in print/compare/arithmetic positions; []byte for a "
             "string that is only printed or passed to a string filter. All six are rendered on the real engine (and by the "
-            "model); a difference is isolated to one statement and minimised to the variable and representation feature.",
+            "model); a difference is isolated to one statement and minimised to the variable and representation feature. "
+            "Fixed family (shard 0, real engine only): seven (variant, generic twin) pairs under fixed case names `reps-nested "
+            "<name>` - the four known deviations (drop-in-printed-map, drop-in-array-to-string, drop-of-drop-in-array-equal, "
+            "uniq-typed-nested-slice: reported, matched by known_findings.json and printed as KNOWN-FINDING) and three controls "
+            "that must agree; the random generator keeps drops out of containers that are printed in Go syntax.",
     "trusted_base": COMMON_TB + ["the generator's use analysis decides where a representation may stand"],
     "assumptions": ["integers of every width are compared with integers, floats of either width with floats: an int is not replaced by a float",
                     "`size` takes any value (array length / rune count / 0) and is not a string filter: []byte is not used there",
@@ -28,7 +32,9 @@ TEXT = {
     "text": ('Whole-template congruence over the Go-representation value type. RepEq d a b = equality of the normal forms '
               'GoVal.norm d (typed slices and fixed arrays are generic slices, typed maps generic maps with the same key type, at '
               'every depth; with d = true a drop inside a container is the value it yields); bindings and expression results are '
-              'compared through unwrap (drops of every depth resolved, pointers followed, nil pointer = nil). '
+              'compared through unwrap (at the top of the value only: drops of every depth resolved, a pointer followed unless it '
+              'points to a struct, range or time, nil pointer = nil; a pointer INSIDE a container is kept by norm and is not its '
+              'pointee). '
               'run_rep_independent: for EVERY comparison/filter layer and output layer that respect the equivalence '
               '(PrimsRespect, OutRespect), every configuration, file system, include depth and template source, rendering against '
               'two environments with pointwise equivalent bindings gives the same RunResult (mutual induction over the compiled '
@@ -48,15 +54,36 @@ TEXT = {
               'Proofs/C18.lean (uniq sees nested element types; type prints the Go type; json/inspect marshal the Go value: '
               '[]uint8 as base64, map[any]any rejected; fmt.Sprint shows drops inside maps and under string filters; a '
               'drop yielding a drop inside an array under values.Equal; only Go int indexes, bounds a range and sets '
-              'limit/offset/cols; a fixed-array needle against a fixed-array MapSlice key). The per-construct theorems '
-              '(drop_*, ptr_unwrap_*, typed_*/array_*, mapslice_*, bytes_print, int_width_*) remain. Tie: the `reps` stream renders '
-              'every template with every Go representation of one logical environment on the model and on the real engine and '
-              'requires all representations to render identically on the real engine.'),
+              'limit/offset/cols; a fixed-array needle against a fixed-array MapSlice key; a pointer nested in a container prints '
+              'as an address). The per-construct theorems remain, each about one operation of the model: drop_* (unwrap, property and index lookup, use as index, truth test, integer '
+              'use, printing, also as an array element), ptr_unwrap_* / ptr_propertyValue_slice / ptr_indexValue_map (a pointer to '
+              'an int, string, slice or map, and lookup through a pointer to the container itself), '
+              'typed_*/array_* (index, property, loop, printing), mapslice_lookup_found/skip for string keys and mapslice_size '
+              '(under the hypothesis that the ordered map has no key "size"), bytes_print (printing by {{ x }} only), '
+              'int_width_prints and int_width_truthy (printing and truthiness only; comparison across widths is C09\'s '
+              'equal_num/less_num, not audited here; no theorem on arithmetic by width nor on float32). Tie: the `reps` stream '
+              'renders every generated template with the generic and five derived Go representations of one logical environment '
+              'on the model and on the real engine and requires all of them to render identically on the real engine; in addition '
+              'a fixed family of seven (variant, generic twin) pairs is run on the real engine only, of which four are known to '
+              'differ (see Limits) and are whitelisted under fixed case names - any other difference is a violation.'),
     "design_ref": 'DESIGN.md 6 C18',
-    "note": NOTE + ('The whole-template theorem is parametric in the value layer; for the standard layer it is proved for the '
-              'relation without drops nested in containers (d = false), up to unmodelled results, and without the filters uniq, json, '
-              'inspect, type (which observe the Go representation and do not respect the equivalence: counterexamples in Proofs/C18.lean). Numeric width, []byte-as-string and MapSlice-as-map are covered by the '
-              'per-construct theorems and the reps stream only.'),
+    "note": NOTE + ('The property as stated is FALSE on the real engine in four recorded places: a drop inside a map that is printed '
+              'whole ({{ m }} shows the Go struct), a drop inside an array converted to a string parameter ({{ a | append: "" }}), '
+              'a drop that yields a drop inside an array under case/when (values.Equal resolves one level), and uniq on nested '
+              'typed slices ([]int{1} and []any{1} are distinct elements). They are recorded in known_findings.json '
+              '(K-C18-*, status known; DESIGN 7.1b), proved as counterexamples in Proofs/C18.lean, reported as KNOWN-FINDING by the '
+              'fixed family of the reps stream on every run, and not repaired; apart from these four whitelisted pairs the reps '
+              'oracle requires identical rendering. '
+              'The whole-template theorem is parametric in the value layer; for the standard layer it is proved for the '
+              'relation without drops nested in containers (d = false), up to unmodelled results (agreement is vacuous when either '
+              'run is outside the model), and without the filters uniq, json, '
+              'inspect, type (which observe the Go representation and do not respect the equivalence: counterexamples in Proofs/C18.lean). '
+              'Pointers are followed at the top of a binding or expression result only: pointers stored inside maps or arrays '
+              '(reached by lookup) and pointers to a struct, range or time are outside the equivalence and covered by the reps '
+              'stream only. Numeric width: theorems for printing and truthiness of integers only; comparison by C09 (not audited '
+              'here); arithmetic by width and float32 by the reps stream only. []byte: theorem for printing only, under string '
+              'filters by the reps stream only. MapSlice-as-map: lookup of string keys and size (no key "size") by theorem, the '
+              'rest by the reps stream.'),
     "technique": ('Lean 4 proof (normal form of representations, two-run logical relation over the interaction trees, mutual '
               'induction over the compiled template; case analysis on the value representation) + model/implementation correspondence + metamorphic '
               'oracle over Go representations'),
